@@ -153,6 +153,7 @@ def run_threads(case, rng, fixed=None):
     io = dev._io_manager
     io._transport_lock = sched.SchedLock(baton, "transport", no_yield_under=("transport",))
     io._store_lock = sched.SchedLock(baton, "store", no_yield_under=("transport",))
+    sched.adopt_locks(baton, [io])
     lost = []
     instrument_store(dev, lost)
     orig_read, orig_send = io.read, io.send
@@ -209,6 +210,7 @@ def run_tasks(case, rng, fixed=None):
         io = dev._io_manager
         io._transport_lock = sched.AsyncSchedLock(baton, "transport", tid_of, no_yield_under=("transport",))
         io._store_lock = sched.AsyncSchedLock(baton, "store", tid_of, no_yield_under=("transport",))
+        sched.adopt_locks(baton, [io], tid_of=tid_of)
         lost = []
         instrument_store(dev, lost)
         orig_read, orig_send = io.read, io.send
@@ -410,6 +412,7 @@ def c14_concurrent(ctx, only=None):
             dev._local_id_lock = sched.SchedLock(baton, "localId")
             dev._io_manager._transport_lock = sched.SchedLock(baton, "transport", no_yield_under=("transport",))
             dev._io_manager._store_lock = sched.SchedLock(baton, "store", no_yield_under=("transport",))
+            sched.adopt_locks(baton, [dev, dev._io_manager])
         dev._local_id = start
         ids = [None] * nthreads
         tracer = sched.line_tracer(baton, {AdbDevice._open.__code__}, follow=_same_class_helper)
@@ -502,6 +505,9 @@ def conc_sessions(ctx, n=None, only=None):
             start, kinds = 0, ["shell"] * nw         # shell streams side by side whose (local, remote) id pairs mirror each other (see remote_ids below)
         if only is None and ctx.prop in ("C06", "C12") and rng.random() < 0.25:
             kinds[rng.randrange(nw)] = "close"       # somebody closes the device while the others are in the middle of their operations
+        if only is None and ctx.prop in ("C02", "C12", "C06", "C15") and rng.random() < (0.4 if ctx.prop == "C02" else 0.15):
+            kinds[rng.randrange(nw)] = "reconnect"   # somebody calls connect() again while the others are in the middle of (possibly half-written) messages
+        rparks = (only or {}).get("rparks") or rng.randrange(1, 6)
         pushed = {i: bytes([97 + i]) * rng.choice([10, 3000, 5000]) for i in range(nw)}
         pulled = {i: bytes([65 + i]) * rng.choice([0, 7, 9000]) for i in range(nw)}
         if only is not None:
@@ -520,6 +526,9 @@ def conc_sessions(ctx, n=None, only=None):
         link = transports.Link(clock, [dict(sim=dict(maxdata=4096, shell=dict(outs), fs=fs, stat=stat, burst=bool((only or {}).get("burst", rng.random() < 0.3)),
                                                    zero_local=bool((only or {}).get("zero_local", rng.random() < 0.2)),
                                                    remote_ids=[("rot", nw)] * 30 if (only or {}).get("rot", start == 0 and rng.random() < (0.8 if ctx.prop == "C01" else 0.4)) else []), dt=1)])
+        if "reconnect" in kinds:
+            import copy as _copy
+            link.future.append(transports.ConnEnv(_copy.deepcopy(link.future[0].env))) if hasattr(link.future[0], "env") else None
         sync_mod.time = clock
         async_mod.time = clock
         order = (only or {}).get("order")
@@ -535,6 +544,7 @@ def conc_sessions(ctx, n=None, only=None):
             dev._local_id_lock = sched.SchedLock(baton, "localId")
             dev._io_manager._transport_lock = sched.SchedLock(baton, "transport")
             dev._io_manager._store_lock = sched.SchedLock(baton, "store")
+            sched.adopt_locks(baton, [dev, dev._io_manager])
             instrument_store(dev, lost)
             orig_r, orig_w = link.bulk_read, link.bulk_write
 
@@ -568,6 +578,11 @@ def conc_sessions(ctx, n=None, only=None):
                     if kinds[i] == "close":
                         baton.park(("io",))
                         dev.close()
+                        results[i] = ("ok", None)
+                    elif kinds[i] == "reconnect":
+                        for _ in range(rparks):
+                            baton.park(("io",))
+                        dev.connect()
                         results[i] = ("ok", None)
                     elif kinds[i] == "shell":
                         results[i] = ("ok", dev.shell(cmds[i].decode(), transport_timeout_s=1.0, read_timeout_s=5.0, decode=False))
@@ -606,6 +621,7 @@ def conc_sessions(ctx, n=None, only=None):
                 dev._local_id_lock = sched.AsyncSchedLock(baton, "localId", tid_of)
                 dev._io_manager._transport_lock = sched.AsyncSchedLock(baton, "transport", tid_of)
                 dev._io_manager._store_lock = sched.AsyncSchedLock(baton, "store", tid_of)
+                sched.adopt_locks(baton, [dev, dev._io_manager], tid_of=tid_of)
                 instrument_store(dev, lost)
                 tr = dev._io_manager._transport
                 orig_r, orig_w = tr.bulk_read, tr.bulk_write
@@ -626,6 +642,11 @@ def conc_sessions(ctx, n=None, only=None):
                         if kinds[i] == "close":
                             await baton.park(i, ("io",))
                             await dev.close()
+                            results[i] = ("ok", None)
+                        elif kinds[i] == "reconnect":
+                            for _ in range(rparks):
+                                await baton.park(i, ("io",))
+                            await dev.connect()
                             results[i] = ("ok", None)
                         elif kinds[i] == "shell":
                             results[i] = ("ok", await dev.shell(cmds[i].decode(), transport_timeout_s=1.0, read_timeout_s=5.0, decode=False))
@@ -668,12 +689,25 @@ def conc_sessions(ctx, n=None, only=None):
         rep.evaluations += 1
         rep.count("conc_sessions_mode", mode)
         ser = dict(kind="conc-sessions", mode=mode, workers=nw, start=start, lines=bool(lines), burst=bool(sim.cfg.get("burst")), zero_local=bool(sim.cfg.get("zero_local")), failing=list(failing), rot=bool(sim.cfg.get("remote_ids")),
-                   outs=[[a.hex(), [c.hex() for c in cs]] for a, cs in sorted(outs.items())], order=sched_order, kinds=kinds,
+                   outs=[[a.hex(), [c.hex() for c in cs]] for a, cs in sorted(outs.items())], order=sched_order, kinds=kinds, rparks=rparks,
                    pushed={str(k2): v.hex() for k2, v in pushed.items()}, pulled={str(k2): v.hex() for k2, v in pulled.items()})
         rep.signatures.add(("concsess", mode, nw, tuple(sched_order[:40])))
         fails = []
         if deadlock:
             fails.append(("deadlock", "deadlock: " + deadlock))
+        elif "reconnect" in kinds:
+            # connect() from one worker while the others are in the middle of their operations: those may fail in any way, but everybody terminates and
+            # what EACH connection's peer received is whole well-formed messages (send and connect exclude each other), at most one cut-off message at the
+            # very end of a connection that was closed under a writer
+            for i in range(nw):
+                if results[i] is None:
+                    fails.append(("deadlock", "worker %d (%s) never finished after another worker called connect()" % (i, kinds[i])))
+            for ci, c in enumerate(link.used):
+                if c.sim.malformed is not None:
+                    fails.append(("malformed-wire", "connection %d: the device received bytes that are not whole well-formed messages (header fields %r) while one worker "
+                                  "reconnected and others were sending" % (ci, c.sim.malformed)))
+                elif ci == len(link.used) - 1 and c.sim.buf:
+                    fails.append(("malformed-wire", "connection %d (the live one) ends with %d bytes that are not a whole message" % (ci, len(c.sim.buf))))
         elif "close" in kinds:
             # after a concurrent close() the other operations may fail in any way; what must hold is that everybody terminates
             for i in range(nw):
@@ -757,6 +791,7 @@ def conc_two_devices(ctx, n=None, only=None):
             dev._local_id_lock = sched.SchedLock(baton, "localId%d" % d)
             dev._io_manager._transport_lock = sched.SchedLock(baton, "transport%d" % d)
             dev._io_manager._store_lock = sched.SchedLock(baton, "store%d" % d)
+            sched.adopt_locks(baton, [dev, dev._io_manager])
             link = links[d]
 
             def wrap(link=link):
